@@ -255,7 +255,15 @@ def run(ck):
                  ("standard_Redfield", (("as_operators", True),), "standard_Redfield/ti"),
                  ("standard_Foerster", (), "standard_Foerster/ti"), ("standard_Foerster", (("time_dependent", True),), "standard_Foerster/td"),
                  ("combined_RedfieldFoerster", (("coupling_cutoff", "CUT"),), "combined_RedfieldFoerster/ti"),
-                 ("combined_RedfieldFoerster", (("coupling_cutoff", "CUT"), ("time_dependent", True)), "combined_RedfieldFoerster/td")]
+                 ("combined_RedfieldFoerster", (("coupling_cutoff", "CUT"), ("time_dependent", True)), "combined_RedfieldFoerster/td"),
+                 ("noneq_Foerster", (("time_dependent", True),), "noneq_Foerster/td")]
+        # (the Foerster-type tensors refuse aggregates with two-exciton states: that outcome is covered by the tensor calls)
+        TDKEYS = [k for k in TKEYS if dict(k[1]).get("time_dependent") and not (mult == 2 and k[0] != "standard_Redfield")]
+        r1 = numpy.zeros((dim, dim), dtype=complex)
+        r1[1, 1] = 1.0
+        rho1 = ReducedDensityMatrix(data=r1.copy())
+        inputs["rho1"] = rho1
+        base = snapshot(inputs)
 
         def call_tensor(tk, in_units):
             theory, opts, bname = tk
@@ -278,12 +286,12 @@ def run(ck):
         # every history contains one tensor key requested inside AND outside a units context and, for every second system, a
         # hierarchy run; the rest is random
         focus = TKEYS[s % len(TKEYS)]
-        plan = [("tensor", focus, True), ("tensor", focus, False), ("prop",), ("prop",)]
+        plan = [("tensor", focus, True), ("tensor", focus, False), ("prop",), ("prop",), ("proptd", 0), ("proptd", 1), ("proptd", 0)]
         if s % 2 == 0:
             plan.append(("heom",))
         while len(plan) < ncalls:
-            o = rng.choice(["tensor", "tensor", "prop", "prop", "prop", "setref", "heom", "sv", "pop", "eso"])
-            plan.append((o, rng.choice(TKEYS), rng.random() < 0.5) if o == "tensor" else (o,))
+            o = rng.choice(["tensor", "tensor", "prop", "prop", "prop", "setref", "heom", "sv", "pop", "eso", "proptd"])
+            plan.append((o, rng.choice(TKEYS), rng.random() < 0.5) if o == "tensor" else ((o, rng.randrange(2)) if o == "proptd" else (o,)))
         rest = plan[1:]
         rng.shuffle(rest)
         plan = [plan[0]] + rest
@@ -338,6 +346,15 @@ def run(ck):
                                 rt = pr.propagate(rho0, Nref=k) if k > 1 else pr.propagate(rho0)
                         res = numpy.array(rt.data).ravel()
                         eff = pr.Nref
+                        with quiet():
+                            pf = ReducedDensityMatrixPropagator(ta, hR, RT)
+                            if eff > 1:
+                                pf.setDtRefinement(eff)
+                            fres = numpy.array(pf.propagate(rho0).data).ravel()
+                        dfresh = float(numpy.abs(res - fres).max()) / (float(numpy.abs(fres).max()) or 1.0)
+                        ck.resid("reused vs fresh propagator", dfresh)
+                        if dfresh > 1e-10:
+                            rec["fresh_diff"] = dfresh
                         key = ("prop", main_key, eff)
                         rec["effective_nref"] = eff
                         line = "propagate %d" % k
@@ -346,6 +363,33 @@ def run(ck):
                         extra = [d for d in diff(pstate_before, pstate_after) if d[0].split(".", 1)[1] not in DECLARED_PROP_STATE]
                         if extra:
                             rec["undeclared"] = extra
+                elif op == "proptd":
+                    # one propagator per time-dependent tensor, used with two different initial states
+                    tdk = TDKEYS[s % len(TDKEYS)]
+                    kk = (tdk[0], tdk[1])
+                    if kk not in tensors:
+                        RTa, hRa, _ = call_tensor(tdk, False)
+                        tensors[kk] = (RTa, hRa)
+                        lines.append("tensor %d" % names.index(tdk[2]) if tdk[2] in names else "pure 9")
+                        recs.append(dict(rec, op="tensor(aux)", aux=True))
+                    RT, hR = tensors[kk]
+                    if ("td", kk) not in props:
+                        props[("td", kk)] = ReducedDensityMatrixPropagator(ta, hR, RT)
+                    st = plan[ic][1]
+                    rin = rho0 if st == 0 else rho1
+                    rec.update(tensor=[kk[0], dict(kk[1])], initial_state=st)
+                    with quiet():
+                        rt = props[("td", kk)].propagate(rin)
+                        rf = ReducedDensityMatrixPropagator(ta, hR, RT).propagate(rin)
+                    res = numpy.array(rt.data).ravel()
+                    fres = numpy.array(rf.data).ravel()
+                    sc = float(numpy.abs(fres).max()) or 1.0
+                    dfresh = float(numpy.abs(res - fres).max()) / sc
+                    ck.resid("reused vs fresh propagator (time-dependent tensor)", dfresh)
+                    if dfresh > 1e-10:
+                        rec["fresh_diff"] = dfresh
+                    key = ("proptd", kk, st)
+                    line = "pure 3"
                 elif op == "heom":
                     if hprop is None:
                         with quiet():
@@ -443,6 +487,9 @@ def run(ck):
                 ck.fail("repeat:prop:default-after-Nref",
                         "propagate(rho) used refinement %d although %d is configured: the Nref argument of an earlier propagate(rho, Nref=k) "
                         "stays on the propagator" % (rec["effective_nref"], configured), dict(sysinp, history=hist + [desc]), d)
+            if rec.get("fresh_diff"):
+                ck.fail("fresh:%s" % op, "a propagator that was used before returns another result than a new propagator built from the same "
+                        "Hamiltonian, tensor and time axis for the same initial state", dict(sysinp, history=hist + [desc]), rec["fresh_diff"], "<= 1e-10")
             if rec.get("undeclared"):
                 ck.disagree("propagate() created or changed propagator attributes outside the declared hidden state",
                             dict(sysinp, history=hist + [desc]), [str(u) for u in rec["undeclared"][:4]], sorted(DECLARED_PROP_STATE))
